@@ -15,6 +15,12 @@ def pool(T, case):
 def run(case, lang, seed, max_leaves):
     T = hlib.Table(case["ct"], case["order"], lang)
     case["ct"].update(hlib.real_builtin_entries(T.factory, case["ct"]))
+    if "Array" in case["ct"]:       # the language's own declaration of arrays is an input (Java / Groovy: covariant); specialised arrays are Kotlin's
+        v = T.factory.get_array_type().type_parameters[0].variance.value
+        case["ct"]["Array"]["tp"][0]["v"] = hlib.VNAME[v] if v else "inv"
+        if lang != "kotlin":
+            case["queries"] = [qi for qi in case["queries"] if "SArray" not in json.dumps(case["u"][qi - 1])]
+            case["vqueries"] = [q for q in case.get("vqueries", []) if "SArray" not in json.dumps(q)]
     oracle = hlib.ChoiceOracle(seed, max_leaves)
     saved = utils.random
     utils.random = oracle
